@@ -906,8 +906,7 @@ def one_shot(rep, f, c):
             rv = p.env.get(0)
             if arm[0][2] == 'Some':
                 pay = ('fld', ('as', res, 'Some'), '0')
-                ix = index_from(bytes_arg)
-                ok &= enc_arg == ('fld', pay, '0') and ix is not None and len(ix) == 2 and ix[0] == ('loc', 2) and ix[1] == ('fld', pay, '1')
+                ok &= enc_arg == ('fld', pay, '0') and slice_nf(bytes_arg, ('loc', 2)) == (('fld', pay, '1'), None)
                 ok &= rv is not None and rv[0] == 'agg' and strip_ref(rv[2][1]) == ('fld', pay, '0')
                 kinds.add('bom')
             else:
